@@ -302,6 +302,27 @@ pub fn coordinated(fx: &Fixture, parts: &mut Parts, tier: Tier) -> Vec<SiteGroup
                             push(vec![zp("content.xml", Edit::Insert { off: first_row, bytes: row.into_bytes() }, format!("coord:rows-repeated-lead table {} starts with an empty row repeated {} times ({})", ti, n, if cells.is_empty() { "no cell" } else { cells }))], false, &mut out);
                         }
                     }
+                    // the count that puts the LAST data row on row 2^32-1 exactly: the last addressable
+                    // row, where `row + 1` no longer fits.  Where the last data row of the table lies
+                    // (its own repeat counts included) is asked of a reader over the undamaged file.
+                    let last = {
+                        use calamine::Reader;
+                        calamine::Ods::new(std::io::Cursor::new(fx.bytes.as_ref().clone()))
+                            .ok()
+                            .and_then(|mut o| o.worksheet_range_at(ti).and_then(|r| r.ok()))
+                            .and_then(|r| r.end())
+                            .map(|e| e.0 as u64)
+                    };
+                    let mut ks: Vec<u64> = vec![0, 1, 2];
+                    if let Some(l) = last {
+                        ks.extend([l.saturating_sub(1), l, l + 1]);
+                    }
+                    ks.sort();
+                    ks.dedup();
+                    for k in ks {
+                        let row = format!("<table:table-row table:number-rows-repeated=\"{}\"><table:table-cell/></table:table-row>", u32::MAX as u64 - k);
+                        push(vec![zp("content.xml", Edit::Insert { off: first_row, bytes: row.into_bytes() }, format!("coord:rows-repeated-edge table {} starts with an empty row repeated 2^32-1-{} times", ti, k))], false, &mut out);
+                    }
                     // two leading empty rows whose counts add up past the limits
                     for (n1, n2) in [("4294967295", "4294967295"), ("18446744073709551615", "2"), ("2147483648", "2147483648")] {
                         let row = format!("<table:table-row table:number-rows-repeated=\"{}\"><table:table-cell/></table:table-row><table:table-row table:number-rows-repeated=\"{}\"><table:table-cell/></table:table-row>", n1, n2);
